@@ -133,6 +133,16 @@ PROPS['C05'] = {
     'rule': POLICY_RULE, 'trusted': UNIT_TRUST + CONC_TRUST + SEQ_TRUST[1:],
 }
 
+PROPS['C17'] = {
+    'modules': ['OtterVerif.Props.C17'],
+    'engines': [unit('ring', 120, 6000, chunk=10),
+                {'kind': 'unit', 'name': 'concring', 'hcmd': 'conc-ring', 'dcmd': 'concring', 'quick': 96, 'thorough': 4000, 'chunk': 8, 'args': []},
+                seq(['mix', 'bound'], 120, 4000, any_fail)],
+    'rule': 'UNIT-ring: add/drain phases on one ring incl. full and empty boundaries. CONC-ring: 1-16 recorders racing one draining consumer on the striped buffer (maximum stripes 1..64): accepted vs delivered sets, capacity, quiescent delivery. '
+            'SEQ (mix/bound): cache results are exact against Spec, which has no read buffer, with read-heavy scripts that saturate the buffer. distinct = distinct transcripts with >= 10 lines',
+    'trusted': UNIT_TRUST + CONC_TRUST + SEQ_TRUST[1:],
+}
+
 for _p in PROPS.values():
     _p.setdefault('rule', SEQ_RULE)
     _p.setdefault('trusted', SEQ_TRUST)
